@@ -62,6 +62,8 @@ pub struct Sc {
     pub rng_seed: u64,
     pub user_hook: String, // after | before | none
     pub src_seed: u64,
+    #[serde(default)]
+    pub high: bool,
 }
 
 pub struct E3Engine;
@@ -113,8 +115,15 @@ pub fn run_c20(sc: &Sc, ctx: &mut Ctx) {
 // ------------------------------------------------------------------------------------------
 
 fn gen_pipe(r: &mut Rng, thorough: bool) -> Sc {
+    gen_pipe_cfg(r, thorough, false)
+}
+
+/// `perm`: the C09 part - always the fault configuration, and every third buffer lies in an area that
+/// forbids the access
+fn gen_pipe_cfg(r: &mut Rng, thorough: bool, perm: bool) -> Sc {
     let n_ops = if thorough { r.range(4, 60) } else { r.range(4, 30) };
-    let fault_cfg = r.chance(1, 2); // fault-free and fault-injecting configurations are separate
+    let fault_cfg = perm || r.chance(1, 2); // fault-free and fault-injecting configurations are separate
+    let bad = if perm { 3 } else { 8 };
     let max_n: u64 = *r.pick(&[8u64, 64, 300, 300, 2000, 2000, 16000]);
     let mut ops = Vec::new();
     let mut pipes = 0u64;
@@ -123,7 +132,7 @@ fn gen_pipe(r: &mut Rng, thorough: bool) -> Sc {
         match r.weighted(&w) {
             0 => {
                 if pipes < 6 {
-                    let buf = if fault_cfg && r.chance(1, 8) { *r.pick(&["unmapped", "readonly"]) } else { "ok" };
+                    let buf = if fault_cfg && r.chance(1, bad) { *r.pick(&["unmapped", "readonly"]) } else { "ok" };
                     ops.push(Op::Pipe { slot: pipes, buf: buf.to_string() });
                     if buf == "ok" {
                         pipes += 1;
@@ -155,7 +164,7 @@ fn gen_pipe(r: &mut Rng, thorough: bool) -> Sc {
                     1 => 1,
                     _ => r.range(0, max_n),
                 };
-                let buf = if fault_cfg && r.chance(1, 8) { *r.pick(&["unmapped", "readonly", "writeonly", "straddle"]) } else { "ok" };
+                let buf = if fault_cfg && r.chance(1, bad) { *r.pick(&["unmapped", "readonly", "writeonly", "straddle"]) } else { "ok" };
                 let off = r.below(DATA_LEN - n.min(DATA_LEN - 1));
                 if k == 1 {
                     ops.push(Op::Write { fd: fd.to_string(), slot, imm, buf: buf.to_string(), off, n });
@@ -181,7 +190,7 @@ fn gen_pipe(r: &mut Rng, thorough: bool) -> Sc {
         }
         vals.push(v);
     }
-    Sc { kind: "pipe".into(), ops, blockers: vec![], rng_values: vals, rng_seed: r.next(), user_hook: r.pick(&["after", "after", "before", "none"]).to_string(), src_seed: r.next() }
+    Sc { kind: "pipe".into(), ops, blockers: vec![], rng_values: vals, rng_seed: r.next(), user_hook: r.pick(&["after", "after", "before", "none"]).to_string(), src_seed: r.next(), high: false }
 }
 
 fn gen_brk(r: &mut Rng, thorough: bool, big: bool) -> Sc {
@@ -251,7 +260,10 @@ fn gen_brk(r: &mut Rng, thorough: bool, big: bool) -> Sc {
         blockers.retain(|b| b.0 >= 0x40_0000);
         blockers.insert(0, (0x1000, *r.pick(&[0x4_0000u64, 0x10_0000, 0x1F_0000])));
     }
-    Sc { kind: "brk".into(), ops, blockers, rng_values: vec![], rng_seed: r.next(), user_hook: r.pick(&["after", "none", "none"]).to_string(), src_seed: r.next() }
+    // one layout in 48: every gap below the end of the program image is taken, so that the heap lands
+    // above all other areas and is the topmost one
+    let high = !big && r.chance(1, 48);
+    Sc { kind: "brk".into(), ops, blockers, rng_values: vec![], rng_seed: r.next(), user_hook: r.pick(&["after", "none", "none"]).to_string(), src_seed: r.next(), high }
 }
 
 // ------------------------------------------------------------------------------------------
@@ -429,6 +441,19 @@ pub fn run(_prop: &str, sc: &Sc, ctx: &mut Ctx) {
         for (s, l) in sc.blockers.iter() {
             ax.mem_init_zero(*s, *l).map_err(|e| e.to_string())?;
         }
+        if sc.high {
+            let mut ext: Vec<(u64, u64)> = ax.verif_area_extents().iter().map(|a| (a.0, a.1)).collect();
+            ext.sort();
+            let top = ext.iter().map(|a| a.0 + a.1).max().unwrap_or(0x1000);
+            let top = (top + 0xfff) & !0xfff;
+            let mut at = 0x1000u64;
+            for (s0, l0) in ext.iter().chain(std::iter::once(&(top, 0))) {
+                if *s0 > at {
+                    ax.mem_init_zero(at, *s0 - at).map_err(|e| e.to_string())?;
+                }
+                at = at.max(*s0 + *l0);
+            }
+        }
         Ok(())
     });
     if !matches!(setup, Ok(Ok(()))) {
@@ -587,6 +612,9 @@ fn run_pipe(sc: &Sc, ax: &mut Axecutor, marks: &[u64], seen: &Rc<RefCell<Vec<(u6
                     }
                     if !buf_ok {
                         ctx.dev("C14", "C14|pipe|bad_buffer_accepted".into(), "pipe() succeeded with an unwritable descriptor array".into());
+                        if range_ok(&before, rdi, 16, 0) {
+                            ctx.dev("C09", "C09|sys|pipe|unwritable_array|want=err|got=ok".into(), format!("pipe() stored its descriptors at {rdi:#x} although the area forbids writing"));
+                        }
                     }
                 } else {
                     if !collide && !buf_ok {
@@ -595,6 +623,9 @@ fn run_pipe(sc: &Sc, ax: &mut Axecutor, marks: &[u64], seen: &Rc<RefCell<Vec<(u6
                     }
                     if !collide && buf_ok && !maybe_collide {
                         ctx.dev("C14", "C14|pipe|fresh|failed".into(), format!("pipe() failed although the descriptors ({r},{w}) are fresh and the array is writable: {out:?}"));
+                    }
+                    if changed_mem(&before, &after) && !buf_ok && range_ok(&before, rdi, 16, 0) {
+                        ctx.dev("C09", "C09|sys|pipe|denied_access_changed_memory".into(), format!("a refused pipe() changed the unwritable area at {rdi:#x}"));
                     }
                     if changed_mem(&before, &after) {
                         ctx.dev("C14", "C14|pipe|failed_call_changed_memory".into(), "a failing pipe() changed guest memory".into());
@@ -674,6 +705,16 @@ fn run_pipe(sc: &Sc, ax: &mut Axecutor, marks: &[u64], seen: &Rc<RefCell<Vec<(u6
                             if changed_mem(&before, &after) {
                                 ctx.dev("C14", "C14|read|failed_call_changed_memory".into(), "a failing read changed guest memory".into());
                             }
+                            // C09: the handler stores into guest memory on the guest's behalf - one more access path
+                            if range_ok(&before, rsi, kx, 0) {
+                                ctx.fault("syscall_store_into_unwritable_area");
+                                if ok {
+                                    ctx.dev("C09", "C09|sys|pipe_read|unwritable_buffer|want=err|got=ok".into(), format!("read() into [{rsi:#x},+{kx}) succeeded although the area forbids writing"));
+                                }
+                                if changed_mem(&before, &after) {
+                                    ctx.dev("C09", "C09|sys|pipe_read|denied_access_changed_memory".into(), format!("read() into the unwritable area at {rsi:#x} changed memory"));
+                                }
+                            }
                         }
                         if !pipes_equal(ax, &pipes) {
                             ctx.dev("C14", format!("C14|read|read_end|{rel}|queue_state|{}", if buf_ok { "buf_ok" } else { "buf_bad" }), "the handler's pipe contents differ from the queue model after this read".into());
@@ -717,6 +758,12 @@ fn run_pipe(sc: &Sc, ax: &mut Axecutor, marks: &[u64], seen: &Rc<RefCell<Vec<(u6
                             }
                         } else if ok {
                             ctx.dev("C14", "C14|write|write_end|bad_buffer_accepted".into(), "write succeeded with an unreadable buffer".into());
+                            if range_ok(&before, rsi, rdx, 0) {
+                                ctx.dev("C09", "C09|sys|pipe_write|unreadable_buffer|want=err|got=ok".into(), format!("write() from [{rsi:#x},+{rdx}) succeeded although the area forbids reading"));
+                            }
+                        }
+                        if rdx > 0 && !buf_ok && range_ok(&before, rsi, rdx, 0) {
+                            ctx.fault("syscall_load_from_unreadable_area");
                         }
                         if changed_mem(&before, &after) {
                             ctx.dev("C14", "C14|write|changed_guest_memory".into(), "write changed guest memory".into());
@@ -973,7 +1020,7 @@ fn run_brk(sc: &Sc, ax: &mut Axecutor, marks: &[u64], _seen: &Rc<RefCell<Vec<(u6
                     if ok && rax_after == p {
                         ctx.dev("C13", format!("C13|{kind}|blocked|accepted"), format!("brk({p:#x}) succeeded although the new extent collides with another area"));
                         brk = p;
-                    } else if ok && rax_after != brk {
+                    } else if ok && rax_after != brk && !unknown_break {
                         ctx.dev("C13", format!("C13|{kind}|blocked|return_value"), format!("blocked brk({p:#x}) returned {rax_after:#x}, neither the request nor the unchanged break {brk:#x}"));
                     }
                 }
@@ -1069,6 +1116,7 @@ impl Engine for E3Engine {
         let base = match prop {
             "C13" => 60_000,
             "C20" => 12_000,
+            "C09" => 8_000,
             _ => 80_000,
         };
         if thorough {
@@ -1081,6 +1129,7 @@ impl Engine for E3Engine {
         let mut r = Rng::new(mix(seed, prop, idx));
         let sc = match prop {
             "C13" => gen_brk(&mut r, thorough, idx % 10 == 3),
+            "C09" => gen_pipe_cfg(&mut r, thorough, true),
             "C20" => {
                 if idx % 2 == 0 {
                     gen_brk(&mut r, thorough, idx % 4 == 0)
@@ -1147,7 +1196,9 @@ impl Engine for E3Engine {
         )
     }
     fn rule(&self, prop: &str) -> String {
-        if prop == "C13" {
+        if prop == "C09" {
+            "system-call handlers as an access path: guest programs against the built-in pipe handler in which every third buffer (descriptor array of pipe(), destination of read(), source of write()) lies in a mapped area that forbids the access; the call must fail and change nothing".into()
+        } else if prop == "C13" {
             "one run = a pre-existing layout of 0-6 areas around the addresses the heap placement probes, and a guest program of brk(0) / brk(base+delta) (grow, shrink, regrow, page-aligned or not, blocked by neighbours) interleaved with guest stores and loads at heap offsets; break model with shadow bytes; a run is non-trivial if it executed a syscall; distinct = distinct hash of the sequence of (operation kind, fits/blocked, outcome)".into()
         } else {
             "one run = a guest program creating up to 6 pipes and issuing writes/reads of 0-2000 bytes on read ends, write ends, wrong ends, 0/1/2 and never-issued descriptors, with descriptor draws served from the scenario (repeats of live descriptors and read end = write end in the fault configuration), guest buffers that are unmapped/read-only/write-only/straddling, and a user Syscall hook registered after (or before) the built-in handler; queue model per pipe, checked per call and over the history; distinct = distinct hash of the sequence of (call kind, descriptor class, count relation, buffer class, outcome)".into()
